@@ -24,7 +24,7 @@ RULE = ("L1: histories of 2-200 records over 2-8 samples in 1-3 populations, rec
         "The evidence lists how often each ordered pair of kinds was observed.")
 ASSUMPTIONS = ["replica comparison is bit-exact: the same code on the same numbers must give the same bits",
                "the fresh reader is the real code too; absolute correctness of a single record is C01/C02's job"]
-FLOORS = {"quick": {"evaluations": 2000, "distinct_nontrivial": 800, "counts": {"L1_steps": 60000, "C_relations": 90, "L1_cohort_histories": 100, "L1_histories_with_failing_records": 200, "L1_failing_records_read_past": 200}},
+FLOORS = {"quick": {"evaluations": 2000, "distinct_nontrivial": 800, "counts": {"L1_steps": 60000, "C_relations": 90, "L1_cohort_histories": 100, "L1_histories_with_failing_records": 200, "L1_failing_records_read_past": 200, "C_wide_target_cases": 30}},
           "thorough": {"evaluations": 150000, "distinct_nontrivial": 50000, "counts": {"L1_steps": 4000000, "C_relations": 2500}}}
 NSHARD = 32
 
@@ -256,11 +256,26 @@ def check_C(S, p):
                 pops.append(q)
         cols = [[samples.index(s) for s, q in smap if q == lab] for lab in pops]
         hist = gen_history(rng, ns, cols, project, rng.choice([4, 10, 40, 40, 1024, 2048]) if i else [1024, 2048, 512][p["i"] % 3])
+        wide = i == 1
+        if wide:
+            # a projected spectrum of more than a thousand cells (two populations of 17-25 samples), several reader threads:
+            # if adding a site overlaps with reading the next one, the result must still not depend on order or timing
+            na_, nb_ = rng.randint(17, 25), rng.randint(17, 25)
+            ns = na_ + nb_
+            samples = ["s%d" % j for j in range(ns)]
+            smap = [(s_, "A" if j < na_ else "B") for j, s_ in enumerate(samples)]
+            cols = [list(range(na_)), list(range(na_, ns))]
+            project = [rng.choice([32, 33, 2 * na_ - 2]), rng.choice([32, 31, 2 * nb_ - 2])]
+            project = [min(m_, 2 * len(c_)) for m_, c_ in zip(project, cols)]
+            hist = gen_history(rng, ns, cols, project, 40)
+            S.count("C_wide_target_cases")
         cut = rng.randint(0, len(hist))
         perm = hist[:]
         rng.shuffle(perm)
         extra = ["--precision", "10"] if project else []
-        container = rng.choice(E.CONTAINERS)
+        if wide:
+            extra += ["-t", str(rng.choice([2, 3, 4, 8]))]
+        container = rng.choice(E.CONTAINERS) if not wide else rng.choice(["vcf.gz", "bcf"])
 
         def run(h):
             return E.cli_create(E.encode(cs_from_codes(samples, h), container, rng), smap, project=project, extra=extra)
@@ -279,6 +294,14 @@ def check_C(S, p):
                 tag, [float(x) for x in vs[0][1][:8]], [float(x + y) for x, y in zip(vs[1][1][:8], vs[2][1][:8])], cut), wit)
         if (project is None and pm.out != whole.out) or any(abs(w - x) > tol for w, x in zip(vs[0][1], vs[3][1])):
             S.viol("C11:permutation", "[%s] permuting the records changed the spectrum: %r vs %r" % (tag, pm.out[:150], whole.out[:150]), wit)
+        if wide:
+            # the same input again, and on one thread: byte-identical output
+            again = run(hist)
+            one = E.cli_create(E.encode(cs_from_codes(samples, hist), container, rng), smap, project=project, extra=["--precision", "10", "-t", "1"])
+            S.count("C_relations", 2)
+            if again.out != whole.out or one.out != whole.out or one.rc != whole.rc:
+                S.viol("C11:threads-or-timing", "[%s] the same records give different output on a second run / on one thread: %r vs %r vs %r" % (
+                    tag, whole.out[-80:], again.out[-80:], one.out[-80:]), wit)
         S.case(key=digest([hist, E.map_json(smap), project, "C"]), nontrivial=len(set(hist)) >= 3)
 
 
